@@ -235,9 +235,14 @@ def strip_cv(t):
                 t = t[:-len(q)].strip(); changed = True
     return t
 
+TYPE_ALIASES = {}    # typedef names that clang leaves sugared inside template arguments -> canonical spelling (filled per unit)
+
 def norm_class(t):
     """canonical spelling of a class type used as key in tables"""
     t = strip_cv(t)
+    for k_, v_ in TYPE_ALIASES.items():
+        if k_ in t:
+            t = re.sub(r'(?<![A-Za-z0-9_:])(?:bpp::)?' + re.escape(k_) + r'(?![A-Za-z0-9_])', v_, t)
     t = t.replace('std::__cxx11::', 'std::')
     # drop allocator / traits default template arguments
     t = re.sub(r',\s*std::allocator<[^<>]*(<[^<>]*>)?[^<>]*>\s*', '', t)
@@ -353,6 +358,19 @@ def iterlike(t):
         j += 1
     return t[i:j].strip()
 
+MAPITER_RE = re.compile(r'^std::_Rb_tree_(?:const_)?iterator<(.*)>$')
+
+def mapiterlike(t):
+    """entry type E when t is an iterator of std::map / std::set (std::_Rb_tree_iterator<E>): modelled as E* into an entry table
+    with an end sentinel; ++ goes to the next present entry (VERIF_MAP_NEXT)"""
+    t = norm_class(t)
+    if t.endswith('::_Self'):
+        t = t[:-len('::_Self')]
+    m = MAPITER_RE.match(t)
+    if not m:
+        return None
+    return m.group(1).strip()
+
 def element_type_alias(t):
     """std::__shared_ptr_access<T,...>::element_type -> T"""
     m = re.match(r'^(std::__shared_ptr_access<.*>)::element_type$', t)
@@ -379,6 +397,8 @@ class Types:
         if t0 in BUILTIN:
             return BUILTIN[t0]
         k = norm_class(t0)
+        if k in BUILTIN:
+            return BUILTIN[k]
         ea = element_type_alias(k)
         if ea:
             return self.base(ea)
@@ -424,6 +444,9 @@ class Types:
         ril = riterlike(t2)
         if ril is not None:
             return self._c(ril)
+        mil = mapiterlike(t2)
+        if mil is not None:
+            return self._c(mil) + '*'
         m = re.match(r'^(.*)\[(\d+)\]$', t2)
         if m:
             return self._c(m.group(1)) + '*'
@@ -441,7 +464,7 @@ class Types:
 
     def is_scalar(self, tobj):
         t = strip_cv(self.qt(tobj))
-        if t.endswith('*') or ptrlike(t) is not None or iterlike(t) is not None or riterlike(t) is not None or t in ('std::nullptr_t', 'nullptr_t'):
+        if t.endswith('*') or ptrlike(t) is not None or iterlike(t) is not None or riterlike(t) is not None or mapiterlike(t) is not None or t in ('std::nullptr_t', 'nullptr_t'):
             return True
         return t in BUILTIN or t.startswith('enum ')
 
@@ -474,7 +497,8 @@ def unwrap(n):
 class Cfg:
     """per-unit lowering configuration"""
     def __init__(self, types=None, rename=None, free=None, defaults=None, drop=None, throws=None,
-                 plain=None, consts=None, exc_tree=None, dyncast=None, range_for=None, ghost_fields=None, ctor_tag=None, uf_ops=None, struct_fields=None):
+                 plain=None, consts=None, exc_tree=None, dyncast=None, range_for=None, ghost_fields=None, ctor_tag=None, uf_ops=None, struct_fields=None, type_aliases=None):
+        TYPE_ALIASES.clear(); TYPE_ALIASES.update(type_aliases or {})
         def nk(k):
             if isinstance(k, tuple) and len(k) >= 2 and k[0] == 'ctor':
                 return (k[0], norm_class(k[1])) + tuple(k[2:])
@@ -777,7 +801,7 @@ class FnLower:
     def construct_into(self, target, u, decl=None):
         """statements constructing an object of class type in place: target is an lvalue text"""
         cls = self.T.cls(u['type'])
-        if ptrlike(cls) is not None or iterlike(cls) is not None or riterlike(cls) is not None:
+        if ptrlike(cls) is not None or iterlike(cls) is not None or riterlike(cls) is not None or mapiterlike(cls) is not None:
             return [('%s %s = %s;' % (decl, target, self.expr(u))) if decl else '%s = %s;' % (target, self.expr(u))]
         cty = self.T.base(cls)
         args = ctor_args(u)
@@ -1050,6 +1074,31 @@ class FnLower:
         cls = self.T.cls(rangedecl['type'])
         if cls not in self.cfg.range_for:
             self.brk(n, 'range-for over %s' % cls)
+        if self.cfg.range_for[cls][0] == 'ITER':
+            # associative container: iterate over the present entries
+            _, begin_fn, end_fn = self.cfg.range_for[cls]
+            self.callees.update([begin_fn, end_fn])
+            rng = 'verif_rng%d' % (self.nloops + 1)
+            it = 'verif_it%d' % (self.nloops + 1)
+            re_ = self.ref_bind(rinit)
+            r = ['{']
+            r += ['  ' + l for l in self.flush_pre()]
+            r.append('  %s %s = %s;' % (self.T.c(rangedecl['type']), rng, re_))
+            mark = self.loop_marker()
+            vt = self.T.c(loopvar['type'])
+            et = vt if self.T.is_ref(loopvar['type']) else vt + '*'
+            r.append('  for (%s %s = %s(%s); %s != %s(%s); %s = VERIF_MAP_NEXT(%s))' % (et, it, begin_fn, rng, it, end_fn, rng, it, it))
+            r.append('  ' + mark)
+            r.append('  {')
+            if self.T.is_ref(loopvar['type']):
+                self.refs[loopvar['id']] = True
+                r.append('    %s %s = %s;' % (vt, loopvar['name'], it))
+            else:
+                r.append('    %s %s = *%s;' % (vt, loopvar['name'], it))
+            r += ['    ' + l for l in self.block(body)]
+            r.append('  }')
+            r.append('}')
+            return r
         size_fn, at_fn = self.cfg.range_for[cls]
         self.callees.update([size_fn, at_fn])
         rng = 'verif_rng%d' % (self.nloops + 1)
@@ -1113,7 +1162,7 @@ class FnLower:
             args = n['inner'][1:]
             if args and any(ptrlike(self.T.cls(a['type'])) is not None for a in args[:2]) and name in ('operator->', 'operator*', 'operator=', 'operator==', 'operator!=', 'operator bool'):
                 return None
-            if args and (iterlike(self.T.cls(args[0]['type'])) is not None or riterlike(self.T.cls(args[0]['type'])) is not None):
+            if args and (iterlike(self.T.cls(args[0]['type'])) is not None or riterlike(self.T.cls(args[0]['type'])) is not None or mapiterlike(self.T.cls(args[0]['type'])) is not None):
                 return None
             if rd.get('kind') == 'CXXMethodDecl':
                 cls = self.T.cls(args[0]['type'])
@@ -1130,7 +1179,7 @@ class FnLower:
             self.brk(n, 'indirect call')
         if k in ('CXXConstructExpr', 'CXXTemporaryObjectExpr'):
             cls = self.T.cls(n['type'])
-            if ptrlike(cls) is not None or iterlike(cls) is not None or riterlike(cls) is not None:
+            if ptrlike(cls) is not None or iterlike(cls) is not None or riterlike(cls) is not None or mapiterlike(cls) is not None:
                 return None
             if self.is_copy_ctor(n) and len(n.get('inner', [])) == 1:
                 a = n['inner'][0]
@@ -1533,6 +1582,21 @@ class FnLower:
         cal = unwrap_casts(n['inner'][0])
         rd = cal.get('referencedDecl', {})
         args = n['inner'][1:]
+        if args and mapiterlike(self.T.cls(args[0]['type'])) is not None:
+            nm = rd.get('name')
+            op = nm[len('operator'):]
+            a0 = self.expr(args[0])
+            if op == '*' and len(args) == 1:
+                return '(*VERIF_MAP_DEREF(%s))' % a0
+            if op == '->':
+                return 'VERIF_MAP_DEREF(%s)' % a0
+            if op == '++':
+                if len(args) == 2:
+                    self.brk(n, 'postfix ++ on a map iterator')
+                return '(%s = VERIF_MAP_NEXT(%s))' % (a0, a0)
+            if op in ('==', '!=', '=') and len(args) == 2:
+                return '(%s %s %s)' % (a0, op, self.expr(args[1]))
+            self.brk(n, 'map iterator operator %s' % nm)
         if args and riterlike(self.T.cls(args[0]['type'])) is not None:
             nm = rd.get('name')
             op = nm[len('operator'):]
@@ -1601,7 +1665,7 @@ class FnLower:
     def e_CXXConstructExpr(self, n):
         cls = self.T.cls(n['type'])
         args = ctor_args(n)
-        if iterlike(cls) is not None or riterlike(cls) is not None:
+        if iterlike(cls) is not None or riterlike(cls) is not None or mapiterlike(cls) is not None:
             if len(args) == 1:
                 return '((%s)%s)' % (self.T.c(n['type']), self.expr(args[0]))
             if not args:
